@@ -206,8 +206,8 @@ def mg1_harness():
         from tsv.core import Ctx
         saved = Ctx.cur; Ctx.cur = None
         try:
-            A = DU.MG1Uniform._to_noise(None, torch.eye(D, dtype=torch.float64).float()).double()
-            Ainv = DU.MG1Uniform._to_parameters(None, torch.eye(D, dtype=torch.float64).float()).double()
+            A = h.d._to_noise(torch.eye(D, dtype=torch.float32)).double()
+            Ainv = h.d._to_parameters(torch.eye(D, dtype=torch.float32)).double()
         finally:
             Ctx.cur = saved
         ensure(h, ctx, "C05.mg1.shear-has-unit-determinant", z3.BoolVal(float(torch.det(A)) == 1.0 and float(torch.det(Ainv)) == 1.0 and bool((A @ Ainv == torch.eye(D, dtype=torch.float64)).all())))
@@ -255,10 +255,11 @@ def mg1_sample_harness():
         for l, u in zip(P(low), P(high)): ctx.assume(l < u)
         d = DU.MG1Uniform(low=low, high=high)
         s = d.sample((n,))
-        return s, d._to_noise(s), d.mean
+        r = d.rsample((n,))
+        return s, d._to_noise(s), d.mean, d._to_noise(r)
 
     def post(h, ctx, value):
-        smp, nz, mean = value
+        smp, nz, mean, rnz = value
         pm = P(mean)
         ensure(h, ctx, "C05.mg1.mean-shape", z3.BoolVal(tuple(pm.shape) == (D,)))
         if tuple(pm.shape) == (D,):
@@ -273,6 +274,18 @@ def mg1_sample_harness():
             for t in P(dd).reshape(-1): draws[t.get_id()] = nm
         from tsv.terms import base_symbols
         used = set()
+        # rsample (torch's reparameterised sampler, inherited API) is a sampler too: its draws must follow the same density
+        prn = P(rnz)
+        ensure(h, ctx, "C05.mg1.rsample-shape", z3.BoolVal(tuple(prn.shape) == (n, D)))
+        if tuple(prn.shape) == (n, D):
+            for j in range(n):
+                for i in range(D):
+                    us = [s_ for s_ in base_symbols(z3.simplify(prn[j, i], som=True)) if s_ in draws]
+                    ensure(h, ctx, "C05.mg1.rsample-noise-uses-one-fresh-draw", z3.BoolVal(len(us) == 1 and us[0] not in used))
+                    used.update(us)
+                    ensure(h, ctx, "C05.mg1.rsample-noise-inside-box", z3.And(prn[j, i] >= pl[i], prn[j, i] < ph[i]))
+                    if len(us) == 1:
+                        ensure(h, ctx, "C05.mg1.rsample-noise-is-affine-image-of-uniform-draw", prn[j, i] == pl[i] + T.sym_by_id(us[0]) * (ph[i] - pl[i]))
         for j in range(n):
             for i in range(D):
                 us = [s_ for s_ in base_symbols(z3.simplify(pn[j, i], som=True)) if s_ in draws]   # the shear and its inverse cancel syntactically in sum-of-monomials form
@@ -287,23 +300,25 @@ def mg1_sample_harness():
         torch.manual_seed(0)
         d = DU.MG1Uniform(low=tt(inp["low"], torch.float32), high=tt(inp["high"], torch.float32))
         s = d.sample((n,))
-        return s, d._to_noise(s), d.mean
+        r = d.rsample((n,))
+        return s, d._to_noise(s), d.mean, d._to_noise(r)
 
     def native_clauses(h, inp, r):
-        smp, nz, mean = r
+        smp, nz, mean, rnz = r
         lo, hi = tt(inp["low"], torch.float32), tt(inp["high"], torch.float32)
         A = torch.tensor([[1.0, -1, 0], [0, 1, 0], [0, 0, 1]], dtype=smp.dtype)
         z = smp @ A
         m = (lo + hi) / 2
         want = torch.stack([m[0], m[0] + m[1], m[2]])
         return {"C05.mg1.sample-noise-inside-box": bool(((z >= lo - 1e-6) & (z <= hi + 1e-6)).all()), "C05.mg1.sample-shape": tuple(smp.shape) == (n, D),
+                "C05.mg1.rsample-noise-inside-box": tuple(rnz.shape) == (n, D) and bool(((rnz >= lo - 1e-6) & (rnz <= hi + 1e-6)).all()),
                 "C05.mg1.mean-is-expectation-of-the-parameters": tuple(mean.shape) == (D,) and bool(torch.allclose(mean, want.to(mean.dtype), atol=1e-5))}
 
     def sample(h, rng):
         low = rng.normal(size=(D,)); w = rng.uniform(0.5, 2.0, size=(D,))
         return {"low": low, "high": low + w}
     hn = Harness("MG1Uniform_sample[]", run, post, native_call=native_call, native_clauses=native_clauses, sample=sample,
-                 functions=[DU.MG1Uniform.sample, DU.MG1Uniform._to_noise, DU.MG1Uniform._to_parameters] + ([DU.MG1Uniform.mean.fget] if 'mean' in DU.MG1Uniform.__dict__ else []))
+                 functions=[DU.MG1Uniform.__dict__[k_] for k_ in ('sample', 'rsample') if k_ in DU.MG1Uniform.__dict__] + [DU.MG1Uniform._to_noise, DU.MG1Uniform._to_parameters] + ([DU.MG1Uniform.mean.fget] if 'mean' in DU.MG1Uniform.__dict__ else []))
     hn.native_float32 = False
     return hn
 
